@@ -451,7 +451,10 @@ func (p *poller) readWriteLoop() {
 							// connection is closed once that data has been read.
 							if asyncReadEnabled && !isOneshot {
 								// no further edge will come: make sure another
-								// read pass follows the running one, it ends at EOF.
+								// read pass follows the running one, and that
+								// the reading job goes on until the end of the
+								// stream (a short read does not end it).
+								atomic.StoreInt32(&c.readToEOF, 1)
 								c.AsyncRead()
 							}
 							continue
